@@ -2,6 +2,8 @@
    legs are established by cross-language round trips, see the check). *)
 From Coq Require Import List NArith ZArith Bool.
 From YV Require Import Base.Wire Model.Binary Proofs.BinaryProofs Proofs.ProtocolProofs.
+From YV Require Import Model.CodedCpp Model.CodedPy Model.CppLayout Model.CppTyped Proofs.CppTypedProofs Model.CppReadProg Model.CppTypedRead
+  Proofs.CppTypedReadProofs Model.PyTyped Proofs.PyTypedProofs Model.PyReadProg Model.PyTypedRead Proofs.PyTypedReadProofs Proofs.CrossTypedProofs.
 Import ListNotations.
 Open Scope N_scope.
 
@@ -30,3 +32,16 @@ Theorem C03_partition_irrelevant : forall schema p ws1 ws2,
   steps_ok p ws1 = true -> steps_ok p ws2 = true -> map sread_of ws1 = map sread_of ws2 ->
   dec_protocol schema p (enc_protocol schema p ws1) = dec_protocol schema p (enc_protocol schema p ws2).
 Proof. exact grouping_irrelevant. Qed.
+
+(* At the level of the typed programs of both generated code bases (Model.PyTyped / PyTypedRead, Model.CppTyped / CppTypedRead,
+   each tied to its code by call traces in C01): what the generated Python writer emits, the generated C++ reader reads back
+   as the same value - fast paths of both sides included - and conversely; unions with at most 127 cases. *)
+Theorem C03_python_writes_cpp_reads : forall t v rest, small_unions t = true -> has_type t v = true -> vsmall v = true ->
+  arun_c (cpp_read t) (obytes (py_wops t v) ++ rest) = CVal v rest.
+Proof. exact py_writes_cpp_reads. Qed.
+Print Assumptions C03_python_writes_cpp_reads.
+
+Theorem C03_cpp_writes_python_reads : forall t v rest, small_unions t = true -> has_type t v = true -> vsmall v = true ->
+  arun_p (py_read t) (cbytes (cpp_wops t v) ++ rest) = PVal v rest.
+Proof. exact cpp_writes_py_reads. Qed.
+Print Assumptions C03_cpp_writes_python_reads.
